@@ -403,3 +403,238 @@ func widthSweep(rep *rt.Report, name string, kinds []StoreKind, version int64, e
 		"cases": n,
 	}
 }
+
+// ---- two-level width sweep: three 4-character paths [a]0[c]0, [a]0[d]0, [b]0[c]0 for EVERY ordered
+// pair a != b of first-level symbols and EVERY ordered pair c != d of second-level symbols: every
+// combination of two child slots at the upper branch with two child slots at the branch below it.
+// Judged after the three inserts and after deleting the middle path (which lifts a branch).
+func twoLevelSweep(rep *rt.Report, name string, kind StoreKind, version int64, extra extraOracle) {
+	run := "two-level-sweep/" + name
+	const hexs = "0123456789abcdef"
+	mk := func(a, c byte) string { return string([]byte{a, '0', c, '0'}) }
+	runCase := func(a, b, c, d byte) (fail string) {
+		defer func() {
+			if r := recover(); r != nil {
+				fail = clip(fmt.Sprintf("panic: %v", r))
+			}
+		}()
+		paths := []string{mk(a, c), mk(a, d), mk(b, c)}
+		w := NewWorld(kind, version)
+		defer w.Close()
+		check := func(when string) string {
+			if f := w.Observe(paths); f != "" {
+				return when + ": " + f
+			}
+			if extra != nil {
+				if f := extra(w); f != "" {
+					return when + ": " + f
+				}
+			}
+			return ""
+		}
+		for i, p := range paths {
+			if f := w.Apply(Op{K: 'I', P: p, V: fmt.Sprintf("v%d", i)}); f != "" {
+				return fmt.Sprintf("Insert(%q): %s", p, f)
+			}
+		}
+		if f := check("after the three inserts"); f != "" {
+			return f
+		}
+		if kind != Mem {
+			if f := w.Apply(Op{K: 'F'}); f != "" {
+				return f
+			}
+		}
+		for _, p := range []string{paths[1], paths[2]} {
+			if f := w.Apply(Op{K: 'D', P: p}); f != "" {
+				return fmt.Sprintf("Delete(%q): %s", p, f)
+			}
+			if f := check(fmt.Sprintf("after Delete(%q)", p)); f != "" {
+				return f
+			}
+		}
+		return ""
+	}
+	if rp := rt.Replay; rp != nil {
+		if rp.Run != run {
+			return
+		}
+		s := rp.Raw["symbols"].(string)
+		f1, f2 := runCase(s[0], s[1], s[2], s[3]), runCase(s[0], s[1], s[2], s[3])
+		fmt.Printf("REPLAY %s a=%c b=%c c=%c d=%c\n", run, s[0], s[1], s[2], s[3])
+		if f1 != f2 {
+			rt.HarnessError("replay of %q is not deterministic: %q vs %q", s, f1, f2)
+		}
+		if f1 != "" {
+			rep.Violate(fmt.Sprintf("[%s] paths %q %q %q => %s", run, mk(s[0], s[2]), mk(s[0], s[3]), mk(s[1], s[2]), f1), nil)
+		}
+		return
+	}
+	type tc struct{ a, b, c, d byte }
+	var cases []tc
+	for _, a := range []byte(hexs) {
+		for _, b := range []byte(hexs) {
+			if a == b {
+				continue
+			}
+			for _, c := range []byte(hexs) {
+				for _, d := range []byte(hexs) {
+					if c != d {
+						cases = append(cases, tc{a, b, c, d})
+					}
+				}
+			}
+		}
+	}
+	var next int64
+	var mu sync.Mutex
+	reported := 0
+	var wg sync.WaitGroup
+	for i := 0; i < rt.Workers(); i++ {
+		wg.Add(1)
+		go func() {
+			defer wg.Done()
+			for {
+				j := int(atomic.AddInt64(&next, 1)) - 1
+				if j >= len(cases) {
+					return
+				}
+				c := cases[j]
+				if f := runCase(c.a, c.b, c.c, c.d); f != "" {
+					mu.Lock()
+					if reported < 3 {
+						reported++
+						rep.Violate(fmt.Sprintf("[%s] paths %q %q %q => %s", run, mk(c.a, c.c), mk(c.a, c.d), mk(c.b, c.c), f), map[string]any{"run": run, "symbols": string([]byte{c.a, c.b, c.c, c.d})})
+					} else {
+						rep.Add("violations_suppressed_duplicates", 1)
+					}
+					mu.Unlock()
+				}
+			}
+		}()
+	}
+	wg.Wait()
+	n := len(cases)
+	rep.Add("states", n)
+	rep.Add("transitions", 3*n)
+	rep.Add("traces_validated_against_impl", 3*n)
+	rep.Add("evaluations", 3*n)
+	rep.Add("distinct_nontrivial", n)
+	rep.Sub[run] = map[string]any{"cases": n, "rule": fmt.Sprintf("paths [a]0[c]0, [a]0[d]0, [b]0[c]0 for every ordered pair a != b and every ordered pair c != d of the 16 symbols (store %v); judged after the inserts and after each of two deletes", kind)}
+}
+
+// ---- byte sweep: every byte value 0..255 as a one-byte value, as the first, a middle and the last
+// byte of a longer value, on every node shape that carries a value.
+func byteSweep(rep *rt.Report, name string, kinds []StoreKind, version int64, extra extraOracle) {
+	run := "byte-sweep/" + name
+	type bc struct {
+		b     int
+		form  int
+		shape int
+		kind  StoreKind
+	}
+	value := func(b, form int) string {
+		switch form {
+		case 0:
+			return string([]byte{byte(b)})
+		case 1:
+			return string([]byte{byte(b), 'x', 'y', 'z'})
+		case 2:
+			return string([]byte{'x', 'y', byte(b), 'z', 'w'})
+		default:
+			return string([]byte{'x', 'y', 'z', byte(b)})
+		}
+	}
+	runCase := func(c bc) (fail string) {
+		defer func() {
+			if r := recover(); r != nil {
+				fail = clip(fmt.Sprintf("panic: %v", r))
+			}
+		}()
+		sh := sizeShapes[c.shape]
+		paths := append([]string{sh.big}, sh.rest...)
+		w := NewWorld(c.kind, version)
+		defer w.Close()
+		ops := []Op{}
+		for _, p := range sh.rest {
+			ops = append(ops, Op{K: 'I', P: p, V: "x"})
+		}
+		ops = append(ops, Op{K: 'I', P: sh.big, V: value(c.b, c.form)})
+		if c.kind != Mem {
+			ops = append(ops, Op{K: 'F'})
+		}
+		for _, o := range ops {
+			if f := w.Apply(o); f != "" {
+				return fmt.Sprintf("%v: %s", o, f)
+			}
+		}
+		if f := w.Observe(paths); f != "" {
+			return f
+		}
+		if extra != nil {
+			return extra(w)
+		}
+		return ""
+	}
+	if rp := rt.Replay; rp != nil {
+		if rp.Run != run {
+			return
+		}
+		c := bc{int(rp.Raw["byte"].(float64)), int(rp.Raw["form"].(float64)), int(rp.Raw["shape"].(float64)), StoreKind(int(rp.Raw["kind"].(float64)))}
+		f1, f2 := runCase(c), runCase(c)
+		fmt.Printf("REPLAY %s %+v\n", run, c)
+		if f1 != f2 {
+			rt.HarnessError("replay is not deterministic: %q vs %q", f1, f2)
+		}
+		if f1 != "" {
+			rep.Violate(fmt.Sprintf("[%s] value %q on shape '%s', store %v => %s", run, value(c.b, c.form), sizeShapes[c.shape].name, c.kind, f1), nil)
+		}
+		return
+	}
+	var cases []bc
+	for b := 0; b < 256; b++ {
+		for form := 0; form < 4; form++ {
+			for s := range sizeShapes {
+				for _, k := range kinds {
+					cases = append(cases, bc{b, form, s, k})
+				}
+			}
+		}
+	}
+	var next int64
+	var mu sync.Mutex
+	reported := map[string]bool{}
+	var wg sync.WaitGroup
+	for i := 0; i < rt.Workers(); i++ {
+		wg.Add(1)
+		go func() {
+			defer wg.Done()
+			for {
+				j := int(atomic.AddInt64(&next, 1)) - 1
+				if j >= len(cases) {
+					return
+				}
+				c := cases[j]
+				if f := runCase(c); f != "" {
+					key := fmt.Sprintf("%d/%d/%d/%s", c.form, c.shape, c.kind, strings.SplitN(f, " ", 3)[0])
+					mu.Lock()
+					if !reported[key] {
+						reported[key] = true
+						rep.Violate(fmt.Sprintf("[%s] value %q on shape '%s', store %v => %s", run, value(c.b, c.form), sizeShapes[c.shape].name, c.kind, f), map[string]any{"run": run, "byte": c.b, "form": c.form, "shape": c.shape, "kind": int(c.kind)})
+					} else {
+						rep.Add("violations_suppressed_duplicates", 1)
+					}
+					mu.Unlock()
+				}
+			}
+		}()
+	}
+	wg.Wait()
+	n := len(cases)
+	rep.Add("states", n)
+	rep.Add("transitions", n)
+	rep.Add("traces_validated_against_impl", n)
+	rep.Add("evaluations", n)
+	rep.Add("distinct_nontrivial", n)
+	rep.Sub[run] = map[string]any{"cases": n, "rule": fmt.Sprintf("every byte value 0..255 as a one-byte value and as first / middle / last byte of a longer value, on %d node shapes that carry a value, stores %v", len(sizeShapes), kinds)}
+}
